@@ -15,7 +15,9 @@ Two observation regimes:
 Any discrepancy is a violation in either regime, because the probes are themselves legal calls
 and therefore part of a (longer) history.
 
-Failure keys:  C12[stale:<edit family>:<probe class>] where <edit family> is the most recent
+Failure keys:  C12[cold:<edit family>:<probe class>] when NO observation call preceded the last
+edit of the history (no memo layer can hold anything: the edit itself, or the cold resolution path,
+is wrong), otherwise C12[stale:<edit family>:<probe class>] where <edit family> is the most recent
 edit operation that changed what the probe must resolve to (computed from the oracle alone) and
 <probe class> says which memo layers the probe goes through:
   atomic    Unit("foo")                     per-registry string->Unit memo only
@@ -557,7 +559,7 @@ def replay_body(world, mode, names, probe, want, T, where="sweep", pset="all", w
     return "\n".join(L)
 
 
-def run_history(world, mode, names, check="final", check_id=False, clear=True, pset="all"):
+def run_history(world, mode, names, check="final", check_id=False, clear=True, pset="all", warm=False):
     """Run one history.  Returns (failures, info) where failures is a list of
     (key, what, replay_args) and info = {'nontrivial': bool}.
     check = 'final': compare only what is observed after the last operation (shorter
@@ -574,17 +576,19 @@ def run_history(world, mode, names, check="final", check_id=False, clear=True, p
     last_change = {}          # probe id -> family of the last edit that changed its expectation
     prev_exp = {p.pid: world.expected(p, T, st) for p in world.probes}
     n_edit = n_obs_after_edit = 0
+    # cold: no observation call has been made before the most recent edit
+    state = {"cold": mode != "dense", "observed": mode == "dense"}
 
     def compare(p, got, names, where="sweep"):
         want = world.expected(p, T, st)
         if same(got, want, RTOL):
             return
         fam = "multi-symbol" if p.multi else last_change.get(p.attr, "none")
-        key = "C12[stale:%s:%s]" % (fam, p.cls)
+        key = "C12[%s:%s:%s]" % ("cold" if state["cold"] else "stale", fam, p.cls)
         if p.cls == "old-object":
             key = "C12[old-object-changed]"
         if got[0] == "ok" and want[0] == "ok" and got[1:3] == want[1:3] and got[3] != want[3]:
-            key = "C12[result-registry:%s]" % p.cls
+            key = "C12[%sresult-registry:%s]" % ("warm-" if warm else "", p.cls)
         if key in seen:
             return
         seen.add(key)
@@ -617,6 +621,7 @@ def run_history(world, mode, names, check="final", check_id=False, clear=True, p
         if n in world.edits:
             e = world.edits[n]
             n_edit += 1
+            state["cold"] = not state["observed"]
             id_before = None
             if check_id and do_cmp:
                 id_before = reg.unit_system_id
@@ -650,6 +655,7 @@ def run_history(world, mode, names, check="final", check_id=False, clear=True, p
         else:
             p = world.obs[n]
             got = p.real(reg, st)
+            state["observed"] = True
             if n_edit:
                 n_obs_after_edit += 1
             # expectations of old_* probes may change when the first array is created
